@@ -151,7 +151,23 @@ def label_loops(fnode):
                 if isinstance(s, ast.With):
                     pass
     walk(fnode.body, "L", [0])
+    label_calls(fnode)
     return labels
+
+
+def label_calls(fnode):
+    """stable names for call sites: <callee text>#<ordinal in source order> (never line numbers)"""
+    calls = [n for n in ast.walk(fnode) if isinstance(n, ast.Call)]
+    calls.sort(key=lambda n: (n.lineno, n.col_offset))
+    seen = {}
+    for n in calls:
+        try:
+            key = ast.unparse(n.func).split(".")[-1]
+        except Exception:
+            key = "call"
+        k = seen.get(key, 0)
+        seen[key] = k + 1
+        n._ordinal = "%s#%d" % (key, k)
 
 
 def assigned_names(stmts):
